@@ -423,6 +423,17 @@ std::string dumpLat(const lat::Lat &L) {
   return o.str();
 }
 
+// order-independent fingerprint of a lattice: its nodes and links as sorted text
+size_t latFingerprint(const lat::Lat &L) {
+  std::vector<std::string> items;
+  for (const auto &n : L.nodes) items.push_back("N " + n.word + "@" + std::to_string(n.sf) + " " + std::to_string(n.fef) + ".." + std::to_string(n.lef));
+  for (const auto &l : L.links) items.push_back("L " + L.nodes[l.from].word + "@" + std::to_string(L.nodes[l.from].sf) + ">" + L.nodes[l.to].word + "@" + std::to_string(L.nodes[l.to].sf) + " " + std::to_string(l.ascr) + " " + std::to_string(l.ef));
+  std::sort(items.begin(), items.end());
+  std::string all;
+  for (auto &i : items) all += i + "\n";
+  return std::hash<std::string>()(all) % 1000000;
+}
+
 long double lse(long double a, long double b, long double lnb) {
   // log_b(b^a + b^b)
   if (a < b) std::swap(a, b);
@@ -604,7 +615,10 @@ Verdict oracleC12(decoder_t *d, lattice_t *dag, bool final, Ctx &ctx) {
     long prev = 0;
     int k = 0;
     std::set<std::string> distinct;
-    for (; it && k < 200; it = hyp_iter_next(it), ++k) {
+    // dense lattices are walked far beyond the search's internal agenda limit (500 partial paths); beyond the
+    // first 200 hypotheses only the order and the membership clauses are judged (the chain search is the costly one)
+    const int deep = npaths >= 3000 ? 6000 : 200;
+    for (; it && k < deep; it = hyp_iter_next(it), ++k) {
       int32 sc = 0;
       const char *h = hyp_iter_hyp(it, &sc);
       std::string hs = h ? h : "";
@@ -625,6 +639,7 @@ Verdict oracleC12(decoder_t *d, lattice_t *dag, bool final, Ctx &ctx) {
         PBT_CHECK(ps != pathScores.end(), "nbest-not-a-lattice-path", when << ": N-best hypothesis '" << hs << "' is not the word sequence of any start-to-end path (" << pathScores.size() << " word sequences over " << npaths << " paths, e.g. '" << (pathScores.empty() ? std::string("-") : pathScores.begin()->first) << "'); lattice: " << dumpLat(L));
         ctx.labelIf(ps->second.count((long)sc) == 0, "nbest:score-is-not-a-start-end-path-score");
       }
+      if (k >= 200) continue;
       // its segmentation is a chain of linked nodes
       seg_iter_t *si = hyp_iter_seg(it);
       std::vector<Seg> segs;
@@ -639,8 +654,10 @@ Verdict oracleC12(decoder_t *d, lattice_t *dag, bool final, Ctx &ctx) {
     }
     if (it) {
       hyp_iter_free(it);
-      ctx.label("nbest:stopped-at-200");
+      ctx.label(deep > 200 ? "nbest:stopped-at-6000" : "nbest:stopped-at-200");
     }
+    ctx.labelIf(k > 600, "nbest:walked>600");
+    ctx.labelIf(k > 1500, "nbest:walked>1500");
     ctx.labelIf(k >= 2, "nbest>=2");
     ctx.labelIf(!enumerated, "paths>20000(not-enumerated)");
     if (distinct.size() >= 2) ctx.nontrivial = true;
@@ -1067,7 +1084,11 @@ Verdict runCase(Choices &c, Ctx &ctx, Which which) {
 
 // ------------------------------------------------------- C07: chunk invariance
 Verdict propC07(Choices &c, Ctx &ctx) {
-  int decIdx = c.coin(35) ? 1 : 0;
+  // one choice: the remainder is the 35 % coin for the decoder as before (replay files stay valid); the quotient
+  // decides whether an earlier, streamed utterance precedes both runs (the rings then do not start at slot 0)
+  uint32_t decRaw = c.raw();
+  int decIdx = decRaw % 100 >= 65 ? 1 : 0;
+  size_t priorLen = (decRaw / 100) % 4 == 3 ? 3000 + ((decRaw / 400) % 40) * 977 : 0;
   SearchCfg sc = genSearchCfg(c);
   Gram gram = genGrammar(c);
   long N;
@@ -1107,12 +1128,23 @@ Verdict propC07(Choices &c, Ctx &ctx) {
   var.queryMask = (int)c.range(0, 255);
   bool withAlign = c.coin(60);
   std::ostringstream d;
-  d << "dec=" << (decIdx ? "compallsen" : "default") << " " << sc.str() << " cmn=" << cmn << " | " << gram.desc << " | N=" << N << " " << adesc << " | variant: " << (var.useFloat ? "float32 " : "int16 ") << "chunks=" << chunksStr(var.chunks) << " queries=" << var.queryMask << (withAlign ? " +alignment" : "");
+  d << "dec=" << (decIdx ? "compallsen" : "default") << (priorLen ? " after-an-earlier-utterance(" + std::to_string(priorLen) + " samples streamed)" : "") << " " << sc.str() << " cmn=" << cmn << " | " << gram.desc << " | N=" << N << " " << adesc << " | variant: " << (var.useFloat ? "float32 " : "int16 ") << "chunks=" << chunksStr(var.chunks) << " queries=" << var.queryMask << (withAlign ? " +alignment" : "");
   ctx.describe(d.str());
   decoder_t *dd = gDec[decIdx];
   applySearchCfg(dd, sc);
   int rc = install(dd, gram);
   PBT_CHECK(rc == 0, "install-refused", "valid grammar refused: " << gram.desc);
+  if (priorLen) {
+    // the same earlier utterance for both runs: speech streamed in 1024-sample blocks
+    const auto &sp = audio::goforward();
+    PBT_CHECK(decoder_start_utt(dd) == 0, "start-utt-failed", "start_utt of the earlier utterance failed");
+    for (size_t pos = 0; pos < priorLen; pos += 1024) {
+      std::vector<int16_t> blk(sp.begin() + (long)pos, sp.begin() + (long)std::min(priorLen, pos + 1024));
+      PBT_CHECK(decoder_process_int16(dd, blk.data(), blk.size(), 0, 0) >= 0, "process-error", "earlier utterance: process failed");
+    }
+    PBT_CHECK(decoder_end_utt(dd) == 0, "end-utt-failed", "end_utt of the earlier utterance failed");
+    ctx.label("earlier-streamed-utterance");
+  }
   auto one = [&](const UttPlan &p, Ctx *cx) {
     if (decoder_set_cmn(dd, cmn.c_str()) != 0) return std::string("set_cmn failed");
     return runUtterance(dd, audio, p, withAlign, cx);
@@ -1185,14 +1217,16 @@ std::string uttStr(const UttSpec &u) {
   return o.str();
 }
 
-std::string runSpec(decoder_t *d, const UttSpec &u, bool withAlign, Ctx *ctx) {
-  if (install(d, u.gram) != 0) return "install refused";
+// skipInstall: the grammar installed for the previous utterance (the same text) stays where it is, so the search
+// object - and whatever it caches between utterances - is the one the previous utterance used
+std::string runSpec(decoder_t *d, const UttSpec &u, bool withAlign, Ctx *ctx, bool skipInstall = false) {
+  if (!skipInstall && install(d, u.gram) != 0) return "install refused";
   if (!u.cmn.empty() && decoder_set_cmn(d, u.cmn.c_str()) != 0) return "set_cmn failed";
   std::string r = runUtterance(d, u.audio, u.plan, withAlign, ctx);
   lattice_t *dag = decoder_lattice(d);
   if (dag) {
     lat::Lat L = lat::read(dag);
-    r += " lattice=" + std::to_string(L.nodes.size()) + "n/" + std::to_string(L.links.size()) + "l";
+    r += " lattice=" + std::to_string(L.nodes.size()) + "n/" + std::to_string(L.links.size()) + "l#" + std::to_string(latFingerprint(L));
   } else
     r += " lattice=NULL";
   return r;
@@ -1221,8 +1255,18 @@ Verdict propC08(Choices &c, Ctx &ctx) {
     // caches inside the decoder are keyed on frame counts: give one history utterance exactly the target's
     // number of samples (hence frames) with different content
     int sibling = -1;
-    if (c.coin(35)) {
+    bool keepGrammar = false;
+    uint32_t sibRaw = c.raw(); // remainder: the 35 % coin as before; quotient: does the sibling also share the target's grammar object?
+    if (sibRaw % 100 >= 65) {
       sibling = (int)c.range(0, nh - 1);
+      if ((sibRaw / 100) % 2 == 1) {
+        // the sibling becomes the last utterance of the history, with the target's grammar, and the target is
+        // decoded without installing it again
+        std::swap(H[(size_t)sibling], H.back());
+        sibling = nh - 1;
+        H.back().gram = U.gram;
+        keepGrammar = true;
+      }
       UttSpec &sb = H[(size_t)sibling];
       size_t N = U.audio.size();
       size_t rot = N ? (size_t)c.range(0, (uint32_t)N - 1) : 0;
@@ -1239,7 +1283,7 @@ Verdict propC08(Choices &c, Ctx &ctx) {
     std::ostringstream d;
     d << "history dec=" << (decIdx == 0 ? "default" : decIdx == 1 ? "compallsen" : "cmn=batch") << " " << sc.str() << (withAlign ? " +alignment" : "") << " H=";
     for (auto &u : H) d << uttStr(u) << " ";
-    d << "U=" << uttStr(U);
+    d << "U=" << uttStr(U) << (keepGrammar ? " (grammar of the last history utterance kept, not installed again)" : "");
     ctx.describe(d.str());
     decoder_t *dd = gDec[decIdx];
     applySearchCfg(dd, sc);
@@ -1253,7 +1297,8 @@ Verdict propC08(Choices &c, Ctx &ctx) {
       if (r.find("hyp=NULL") != std::string::npos) failedInH = true;
       if (u.audio != U.audio || u.gram.text != U.gram.text) differs = true;
     }
-    std::string after = runSpec(dd, U, withAlign, nullptr);
+    std::string after = runSpec(dd, U, withAlign, nullptr, keepGrammar);
+    ctx.labelIf(keepGrammar, "history:same-grammar-object-and-frame-count");
     ctx.labelIf(failedInH, "history:utterance-without-hypothesis");
     ctx.labelIf(sibling >= 0, "history:utterance-with-the-target's-frame-count");
     ctx.labelIf(batch, "config:cmn=batch");
@@ -1326,7 +1371,7 @@ Verdict propC08(Choices &c, Ctx &ctx) {
     lattice_t *dag = decoder_lattice(dx);
     if (dag) {
       lat::Lat L = lat::read(dag);
-      r += " lattice=" + std::to_string(L.nodes.size()) + "n/" + std::to_string(L.links.size()) + "l";
+      r += " lattice=" + std::to_string(L.nodes.size()) + "n/" + std::to_string(L.links.size()) + "l#" + std::to_string(latFingerprint(L));
     } else
       r += " lattice=NULL";
     return r;
